@@ -15,3 +15,7 @@ SPEC = dc.spec(
                "its row-level consequences are checked by the harness oracle on the implementation's own query results.  Modelled "
                "not verified: see C03.",
     design_ref="§6 C01", rule=dc.RULE)
+
+
+def run(ctx, replay):
+    return dc.run_check(SPEC, ctx, replay)
